@@ -64,7 +64,8 @@ class Grover(QAlgorithm):
         else:
             self.oracle = oracle
 
-        oracle_qc = self.oracle.circuit()
+        # work on a copy: the phase qubit and gate must not be added to the caller's circuit
+        oracle_qc = self.oracle.circuit().copy()
 
         # Add negative phase to result
         oracle_qc.add_qubit(name="_ret_phased")
